@@ -193,6 +193,38 @@ const WITNESS: &[&str] = &[
     "include(\"@INC@/chain_0.mmm\")\nfn dsp() {\n  chain_f0(1.0) + chain_f47(1.0)\n}\n",
     "include(\"@INC@/dia_top.mmm\")\nfn dsp() {\n  dia_top(1.0)\n}\n",
 ];
+/// Application patterns: `fn f(h, x, g) { s1 s2 s3 }` with every sequence of 1..3 statements `a(b)`, a, b in
+/// {h, x, g}; a second form binds a lambda that applies its parameter. Most are ill-typed in some way (self
+/// application, a variable used at two types, infinite types arising in argument or in result position); the type
+/// checker has to answer each with a result or a diagnostic.
+const APP_VARS: [&str; 3] = ["h", "x", "g"];
+fn n_app() -> u64 {
+    let n = 9u64; // statements a(b)
+    (n + n * n + n * n * n) * 2
+}
+fn app_text(k: u64) -> String {
+    let form = k % 2;
+    let mut i = k / 2;
+    let mut len = 1;
+    let mut block = 9u64;
+    while i >= block {
+        i -= block;
+        len += 1;
+        block *= 9;
+    }
+    let mut stmts = vec![];
+    for _ in 0..len {
+        let d = (i % 9) as usize;
+        i /= 9;
+        stmts.push(format!("  {}({})\n", APP_VARS[d / 3], APP_VARS[d % 3]));
+    }
+    if form == 0 {
+        format!("fn f(h, x, g) {{\n{}  0.0\n}}\nfn dsp() {{\n  0.0\n}}\n", stmts.concat())
+    } else {
+        // the applications happen inside a lambda over g, which is then applied to x
+        format!("fn f(h, x) {{\n  let k = |g| {{\n  {}    0.0\n  }}\n  k(x)\n}}\nfn dsp() {{\n  0.0\n}}\n", stmts.concat().replace("\n  ", "\n    "))
+    }
+}
 fn layout(tier: Tier) -> Layout {
     let (l_front, l_comp) = match tier {
         Tier::Quick => (3, 2),
@@ -205,7 +237,7 @@ fn layout(tier: Tier) -> Layout {
         n_comp: count_seq(l_comp),
         n_ladder: (LADDER_KINDS * NEST_BOUND) as u64,
         n_edit: *edit_space(tier).cum.last().unwrap(),
-        n_wit: WITNESS.len() as u64,
+        n_wit: WITNESS.len() as u64 + n_app(),
     }
 }
 
@@ -250,6 +282,10 @@ pub fn make_case(tier: Tier, idx: u64) -> Case {
         };
     }
     let idx = idx - l.n_ladder;
+    if idx < l.n_wit && idx >= WITNESS.len() as u64 {
+        let k = idx - WITNESS.len() as u64;
+        return Case { text: app_text(k), family: "application_pattern", origin: format!("application pattern {k}"), compile: true };
+    }
     if idx < l.n_wit {
         return Case {
             text: crate::incfiles::subst(WITNESS[idx as usize]),
